@@ -96,7 +96,7 @@ def build(tree: dict[str, Any]) -> list[dict[str, Any]]:
             else:
                 body.append({"op": "spawn", "via": "ctx" if places[c] == "spawn" else "asyncio", "name": f"task{c}", "owner": None, "body": [{"op": "gate", "label": f"n{c}.start"}, blk]})
         body.append({"op": "gate", "label": f"{name}.out"})
-        b: dict[str, Any] = {"op": "block", "kind": kinds[i], "name": name, "supply": [], "body": body, "completion": cbs[i], "catch": True}
+        b: dict[str, Any] = {"op": "block", "kind": kinds[i], "name": name, "supply": [], "body": body, "completion": None if cbs[i] == "none" else cbs[i], "catch": True}
         if (tree.get("traces") or [None] * n)[i]:
             b["trace_id"] = tree["traces"][i]  # an own trace id (same as or different from the parent's) must not change the nesting
         if (tree.get("fails") or [False] * n)[i] and kinds[i] == "ascope" and not kids[i]:
@@ -148,6 +148,7 @@ def run_once(tree: dict[str, Any], chooser: Chooser) -> dict[str, Any]:
         sched = Sched(loop, chooser)
         loop.W = World(loop, sched)
         loop.W.tg_enabled = False
+        loop.W.gc_on_exit = bool(tree.get("gc"))
         return sched.idle
 
     with patched_time(clock):
@@ -222,6 +223,8 @@ def judge(R: Recorder, tree: dict[str, Any], chooser: Chooser, out: dict[str, An
     for i, name in enumerate(names):
         if ("construct", name) not in pos:
             continue  # never reached (should not happen)
+        if tree["callbacks"][i] == "none":
+            continue  # no callback to observe on this scope; it still has to pass completion on to its parent
         comps = pos.get(("completion", name), [])
         exits = pos.get(("exit", name), [])
         wi = {**w0, "node_kind": tree["kinds"][i], "callback": tree["callbacks"][i], "place": tree["places"][i]}
@@ -258,6 +261,11 @@ def all_trees(tier: str, rng: random.Random):  # noqa: ANN201
             for kinds in itertools.product(("ascope", "sscope"), repeat=n):
                 for places in itertools.product(("inline", "spawn", "plain"), repeat=n - 1):
                     cbs = [("sync", "async")[(i + len(parents)) % 2] for i in range(n)]
+                    if n == 3:
+                        # only some scopes have a callback (the usual shape: the outermost one), and a cyclic garbage collection runs after
+                        # every block exit
+                        yield {"parents": parents, "kinds": list(kinds), "places": ["root", *places], "callbacks": ["sync", "none", "none"], "gc": True}
+                        yield {"parents": parents, "kinds": list(kinds), "places": ["root", *places], "callbacks": ["async", "none", "sync"], "gc": True}
                     if n == 2:
                         yield {"parents": parents, "kinds": list(kinds), "places": ["root", *places], "callbacks": ["async-object", "async-partial"]}
                         yield {"parents": parents, "kinds": list(kinds), "places": ["root", *places], "callbacks": ["async-method", "async-object"]}
@@ -272,7 +280,7 @@ def all_trees(tier: str, rng: random.Random):  # noqa: ANN201
         n = rng.choice([3, 4, 4, 5])
         parents = rng.choice(list(trees(n)))
         yield {"parents": parents, "kinds": [rng.choice(["ascope", "sscope"]) for _ in range(n)], "places": ["root"] + [rng.choice(["inline", "spawn", "plain", "plain"]) for _ in range(n - 1)],
-               "callbacks": [rng.choice(["sync", "async", "sync-raise", "async-raise", "sync", "async-object", "async-partial", "async-method", "sync-falsy-object"]) for _ in range(n)], "fails": [rng.random() < 0.25 for _ in range(n)],
+               "callbacks": [rng.choice(["sync", "async", "sync-raise", "async-raise", "sync", "async-object", "async-partial", "async-method", "sync-falsy-object", "none", "none"]) for _ in range(n)], "gc": rng.random() < 0.25, "fails": [rng.random() < 0.25 for _ in range(n)],
                "traces": [rng.choice([None, None, "shared", f"own-{i}"]) for i in range(n)]}
 
 
